@@ -4,6 +4,7 @@ package c01
 import (
 	"bytes"
 	stdjson "encoding/json"
+	"errors"
 	"fmt"
 	"math"
 	"reflect"
@@ -26,7 +27,23 @@ type Setting struct {
 	EscapeHTML bool   `json:"escape_html,omitempty"` // Encoder only
 	Prefix     string `json:"prefix,omitempty"`
 	Indent     string `json:"indent,omitempty"`
-	N          int    `json:"n,omitempty"` // consecutive Encode calls on one Encoder
+	N          int    `json:"n,omitempty"`       // consecutive Encode calls on one Encoder
+	FailAt     int    `json:"fail_at,omitempty"` // Encoder only: the writer fails on its FailAt-th Write (0 = never)
+}
+
+// failWriter accepts writes until the FailAt-th one, which (and every later one) fails.
+type failWriter struct {
+	buf    bytes.Buffer
+	failAt int
+	n      int
+}
+
+func (w *failWriter) Write(p []byte) (int, error) {
+	w.n++
+	if w.failAt > 0 && w.n >= w.failAt {
+		return 0, errors.New("c01: injected writer failure")
+	}
+	return w.buf.Write(p)
 }
 
 type Case struct {
@@ -63,16 +80,19 @@ func runStd(c Case) (r result) {
 	case "MarshalIndent":
 		r.out, r.err = stdjson.MarshalIndent(x, s.Prefix, s.Indent)
 	case "Encoder":
-		var buf bytes.Buffer
-		e := stdjson.NewEncoder(&buf)
+		w := &failWriter{failAt: s.FailAt}
+		e := stdjson.NewEncoder(w)
 		e.SetEscapeHTML(s.EscapeHTML)
 		if s.Prefix != "" || s.Indent != "" {
 			e.SetIndent(s.Prefix, s.Indent)
 		}
-		for i := 0; i < s.N && r.err == nil; i++ {
-			r.err = e.Encode(x)
+		for i := 0; i < s.N; i++ {
+			if err := e.Encode(x); err != nil {
+				r.err = err
+				w.buf.WriteString(fmt.Sprintf("<call %d failed>", i)) // which calls fail is part of the comparison
+			}
 		}
-		r.out = buf.Bytes()
+		r.out = w.buf.Bytes()
 	}
 	return
 }
@@ -93,16 +113,19 @@ func runSeg(c Case) (r result) {
 	case "MarshalIndent":
 		r.out, r.err = segjson.MarshalIndent(x, s.Prefix, s.Indent)
 	case "Encoder":
-		var buf bytes.Buffer
-		e := segjson.NewEncoder(&buf)
+		w := &failWriter{failAt: s.FailAt}
+		e := segjson.NewEncoder(w)
 		e.SetEscapeHTML(s.EscapeHTML)
 		if s.Prefix != "" || s.Indent != "" {
 			e.SetIndent(s.Prefix, s.Indent)
 		}
-		for i := 0; i < s.N && r.err == nil; i++ {
-			r.err = e.Encode(x)
+		for i := 0; i < s.N; i++ {
+			if err := e.Encode(x); err != nil {
+				r.err = err
+				w.buf.WriteString(fmt.Sprintf("<call %d failed>", i)) // which calls fail is part of the comparison
+			}
 		}
-		r.out = buf.Bytes()
+		r.out = w.buf.Bytes()
 	}
 	return
 }
@@ -170,6 +193,9 @@ func genSetting(rt *rapid.T) Setting {
 			s.Prefix, s.Indent = ">", "\t"
 		}
 		s.N = rapid.IntRange(1, 3).Draw(rt, "n")
+		if rapid.IntRange(0, 5).Draw(rt, "wfail") == 0 {
+			s.FailAt = rapid.IntRange(1, 3).Draw(rt, "failat")
+		}
 	}
 	return s
 }
